@@ -176,7 +176,7 @@ func (s *stats) flushLocked(done bool) {
 		return
 	}
 	s.Done = done
-	s.Hashes = s.Hashes[:0]
+	s.Hashes = make([]uint64, 0, len(s.hashSet))
 	for h := range s.hashSet {
 		s.Hashes = append(s.Hashes, h)
 	}
